@@ -393,7 +393,10 @@ private:
 
   void skipWhitespaceOutsideText()
   {
-    // Only skip if next thing is markup or beginning; do not consume text spaces.
+    // Only skip if next thing is markup or end of input; do not consume text spaces.
+    const std::size_t savedCur = _cur;
+    const std::size_t savedLine = _line;
+    const std::size_t savedCol = _col;
     while (!eof())
     {
       char ch = peek();
@@ -407,7 +410,11 @@ private:
         // stop; next() will handle
         return;
       }
-      // Non-space text ahead; let readText handle
+      // Non-space text ahead: the whitespace belongs to that text run, so give it back
+      // and let readText report the run unmodified.
+      _cur = savedCur;
+      _line = savedLine;
+      _col = savedCol;
       return;
     }
   }
